@@ -3,7 +3,7 @@
 From Coq Require Import Sorting.Sorted Sorting.Permutation.
 From Sdns Require C02.Model C02.Proofs_Gen.
 From Sdns Require Import Common.Base Common.GoList Gen.C14 C14.Model C14.Run
-  C14.Proofs_rsa C14.Proofs_keytag C14.Proofs_rsamd5 C14.Proofs_canon C14.Proofs_verify C14.Proofs_offset C14.Proofs_walk C14.Proofs_loops C14.Proofs_synth.
+  C14.Proofs_rsa C14.Proofs_keytag C14.Proofs_rsamd5 C14.Proofs_canon C14.Proofs_verify C14.Proofs_offset C14.Proofs_walk C14.Proofs_loops C14.Proofs_synth C14.Proofs_ds.
 Open Scope N_scope.
 
 (* the root zone's KSK-2017: flags 257, protocol 3, algorithm 8; its published key tag is 20326 *)
@@ -178,3 +178,46 @@ Proof.
   repeat split; try (vm_compute; reflexivity);
   repeat (apply Forall_cons || apply Forall_nil || (apply PL; [vm_compute; reflexivity | discriminate])).
 Qed.
+
+(* ------------------------------------------------------------------ DS side *)
+(* a hash oracle that answers 32 octets 0x07 for SHA-256 and nothing else; an Ed25519-sized zone key *)
+Definition ds_ex_H (hid : N) (_ : list N) : list N := if hid =? HSHA256 then repeat 7 32 else [].
+Definition ds_ex_key : dnskey := mk_key (bs "Example.") 1 257 3 15 (bs "BwgJCgsMDQ4PEBESExQVFhcYGRobHB0eHyAhIiMkJSY=").
+Definition ds_ex_tag : N := key_tag ds_ex_key.
+Definition ds_ex_digest : list N := bs "0707070707070707070707070707070707070707070707070707070707070707".
+Definition ds_ex_good : ds := mk_ds (bs "example.") 1 ds_ex_tag 15 2 ds_ex_digest.
+Definition ds_ex_wrong : ds := mk_ds (bs "example.") 1 ds_ex_tag 15 2 (bs "0807070707070707070707070707070707070707070707070707070707070707").
+Definition ds_ex_wide : ds := mk_ds (bs "example.") 1 ds_ex_tag 15 2 (ds_ex_digest ++ ds_ex_digest ++ bs "00").
+Definition ds_ex_other_tag : ds := mk_ds (bs "example.") 1 (ds_ex_tag + 1) 15 2 ds_ex_digest.
+Definition ds_ex_gost : ds := mk_ds (bs "example.") 1 ds_ex_tag 15 3 ds_ex_digest.
+Definition ds_ex_km : list (N * list dnskey) := [(ds_ex_tag, [ds_ex_key; ds_ex_key])].
+
+(* accepted whatever the order and repetition of the set (a 65-octet digest in front of the genuine
+   record included); the three errors; the keys vouched for; the hypotheses of the DS theorems hold *)
+Example ds_example :
+  verify_ds_code ds_ex_H ds_ex_km [ds_ex_wide; ds_ex_wrong; ds_ex_good; ds_ex_wrong] = (false, 0) /\
+  verify_ds_code ds_ex_H ds_ex_km [ds_ex_good; ds_ex_wide] = (false, 0) /\
+  verify_ds ds_ex_H ds_ex_km [ds_ex_wide; ds_ex_wrong; ds_ex_good] = (false, true) /\
+  ds_matched_keys ds_ex_H ds_ex_km [ds_ex_wrong; ds_ex_good] = [(ds_ex_tag, [ds_ex_key])] /\
+  ds_matched_keys ds_ex_H ds_ex_km [ds_ex_wrong; ds_ex_wide] = [] /\
+  verify_ds_code ds_ex_H ds_ex_km [ds_ex_wide] = (false, 2) /\
+  (* which error: the one of the record that sorts last, in either order of the input *)
+  verify_ds_code ds_ex_H ds_ex_km [ds_ex_wrong; ds_ex_other_tag] = (false, 1) /\
+  verify_ds_code ds_ex_H ds_ex_km [ds_ex_other_tag; ds_ex_wrong] = (false, 1) /\
+  verify_ds_code ds_ex_H ((ds_ex_tag + 1, []) :: ds_ex_km) [ds_ex_other_tag; ds_ex_wrong] = (false, 1) /\
+  verify_ds_code ds_ex_H ds_ex_km [ds_ex_gost; ds_ex_gost] = (true, 3) /\
+  verify_ds_code ds_ex_H ds_ex_km [] = (false, 1) /\
+  ds_digest_matches ds_ex_H ds_ex_key 2 (repeat 7 32) = true /\
+  forallb (fun d => is_fqdn (d_name d)) [ds_ex_wide; ds_ex_wrong; ds_ex_good; ds_ex_other_tag; ds_ex_gost] = true.
+Proof. vm_compute. repeat split; reflexivity. Qed.
+
+(* the hypothesis of ds_set_order_and_repetition_only_select_the_error is needed: a DS whose owner is
+   not fully qualified has the identity of its fully-qualified twin, is kept as the first of the two,
+   and is no candidate match for the key — VerifyDS then reports ErrMissingKSK although the twin alone
+   would be accepted (stricter; replayed on the Go code as the corpus entry `ds_probe`, CaseDSProbe) *)
+Definition ds_ex_relative : ds := mk_ds (bs "example") 1 ds_ex_tag 15 2 ds_ex_digest.
+Example ds_order_needs_fqdn_owners :
+  verify_ds ds_ex_H ds_ex_km [ds_ex_relative; ds_ex_good] = (false, true) /\
+  verify_ds_code ds_ex_H ds_ex_km [ds_ex_relative; ds_ex_good] = (false, 1) /\
+  verify_ds_code ds_ex_H ds_ex_km [ds_ex_good; ds_ex_relative] = (false, 0).
+Proof. vm_compute. repeat split; reflexivity. Qed.
